@@ -303,6 +303,22 @@ class Evaluator:
             if e["op"] == "Deref":
                 return self.ev(e["e"], env)
             raise Unrecognised("unary op")
+        if k == "bin" and (e.get("resolved") or e.get("callee")) and e.get("op") not in ("Eq", "Ne", "Lt", "Le", "Gt", "Ge", "And", "Or"):
+            # an overloaded operator is a call of its impl
+            cal = e.get("resolved") or e.get("callee")
+            args = [self.ev(e["l"], env), self.ev(e["r"], env)]
+            for name in (cal, e.get("op")):
+                if name in self.atoms:
+                    a_ = self.atoms[name]
+                    return a_(args) if callable(a_) else a_
+            crate = cal.lstrip("<&").split("::")[0]
+            if crate in self.inline_crates and cal in self.facts.crate(crate)["_bodies"]:
+                return self.call_fn(crate, cal, args)
+            if "*" in self.atoms:
+                v = self.atoms["*"](cal, args, e)
+                if v is not None:
+                    return v
+            raise Unrecognised(f"overloaded operator {cal}")
         if k == "bin":
             op = e["op"]
             if op == "And":
@@ -342,6 +358,11 @@ class Evaluator:
                 if "ord" in self.atoms:
                     return self.atoms["ord"]([op, l, r])
                 raise Unrecognised(f"ordering of {l} and {r}")
+            if op in ("Div", "Rem") and "callee" not in e:
+                l, r = self.ev(e["l"], env), self.ev(e["r"], env)
+                if l[0] == "int" and r[0] == "int" and l[1] >= 0 and r[1] > 0:
+                    return ("int", l[1] // r[1] if op == "Div" else l[1] % r[1])
+                raise Unrecognised(f"{op} of {l} and {r}")
             if op in ("BitAnd", "BitOr", "BitXor", "Add", "Sub", "Mul", "Shl", "Shr") and "callee" not in e:
                 l, r = self.ev(e["l"], env), self.ev(e["r"], env)
                 if l[0] == "int" and r[0] == "int":
